@@ -79,6 +79,10 @@ pub fn items(prop: &str, thorough: bool, root: u64) -> Vec<Item> {
         let mut rng = Rng::new(root ^ 0x5e9_5e9);
         for backend in Backend::available() {
             for init in 0..5u8 {
+                // quick tier: all five initial records for C05, two of them for the others
+                if !thorough && prop != "C05" && !matches!(init, 2 | 3) {
+                    continue;
+                }
                 for slot in 0..2u8 {
                     if slot == 1 && !matches!(prop, "C05" | "C10") {
                         continue;
